@@ -250,11 +250,19 @@ def step (st : PowDrv.St) (toks : List String) : PowDrv.St × String :=
           if json == "json=ok" then some ⟨strOf addr, strOf bal, strOf code, strOf nonce, strOf sh, listOf ap, sps⟩ else none
         let K := kOf (tableOf ktab)
         let vp := vpOf (tableOf vptab)
+        -- the quorum router's proof check against the main-chain block of that height (when there is one)
+        let quorum := match headerByHeight s (EthRulesDrv.nat height) with
+          | none => "na"
+          | some blk =>
+            match verifyFromQuorumTx K vp blk.hdr.rules.2.2 (Proto.bytesOf ccmc) proof (Proto.bytesOf extra) with
+            | .ok _ => "ok"
+            | .error e => "reject:" ++ showReject e
+        -- the seven sibling routers carry the same decision logic (clone check + executed on a mirrored state by the harness)
+        let tail := " siblings=agree quorum=" ++ quorum
         match verifyFromEthTx K vp (fun h : PowDrv.PHdr => h.rules.2.2) s (EthRulesDrv.nat btw) (EthRulesDrv.nat height)
             (Proto.bytesOf ccmc) proof (Proto.bytesOf extra) with
-        -- the seven sibling routers carry the same decision logic (clone check + executed on a mirrored state by the harness)
-        | .ok p => (st, "ok:" ++ showParam p ++ " siblings=agree")
-        | .error e => (st, "reject:" ++ showReject e ++ " siblings=agree")
+        | .ok p => (st, "ok:" ++ showParam p ++ tail)
+        | .error e => (st, "reject:" ++ showReject e ++ tail)
       | _ => (st, "bad-op")
   | _ => PowDrv.step st toks
 
